@@ -191,3 +191,49 @@ SPEC_ENTRY['theorems'] += [
   'C11_hyp_new_refines and C12_bar_info_no_side_effects)'),
  ('C12_hyp_probe_nonvacuous', 'Proofs/HypPciProofs.v', 'hyp_new_probe_nonvacuous',
   'command 0xf887: three probes, each clears exactly the decode bits (0xf884) and puts 0xf887 back')]
+
+
+# ---------------------------------------------------------------------------------------------------------------------
+# appended: the C12 monitors of Extract/PciBusIO.v are proved to mean what they stand for (Proofs/PciBusMonProofs.v): MEANING = what a
+# true verdict states on ANY input list; HOLDS OF MODEL = the line built from the model's own behaviour is accepted.
+SPEC_ENTRY['imports'] += ['Extract.PciBusIO', 'Proofs.PciBusMonProofs']
+SPEC_ENTRY['theorems'] += [
+ ('C12_monitor_1250_meaning', 'Proofs/PciBusMonProofs.v', 'mon_truth_meaning',
+  'monitor 1250 on any line [slot; six BAR registers; observed result]: wherever the registers at that slot describe a BAR (slot_truth: kinds, hard-wired bits, contents; size = 2^(lowest writable address bit), both registers of a 64-bit BAR), the observed result is Ok of exactly that'),
+ ('C12_monitor_1250_meaning_placed', 'Proofs/PciBusMonProofs.v', 'mon_truth_meaning_placed',
+  'the same in the terms of C12_bar_info: for every well-formed BAR placed at the slot a true verdict says the call returned Ok(kind, address, prefetchable, 2^k), None for an unimplemented register'),
+ ('C12_monitor_1250_decodes', 'Proofs/PciBusMonProofs.v', 'mon_truth_decodes', 'every list monitor 1250 accepts is such a line'),
+ ('C12_monitor_1250_holds_of_model', 'Proofs/PciBusMonProofs.v', 'mon1250_holds_of_model',
+  'monitor 1250 holds of bar_info of the model on every function with honest kinds, every slot, every command value, both profiles'),
+ ('C12_monitor_1251_meaning', 'Proofs/PciBusMonProofs.v', 'mon_cmd_meaning', 'monitor 1251: the command register after the call is the one before'),
+ ('C12_monitor_1252_meaning', 'Proofs/PciBusMonProofs.v', 'mon_bars_meaning', 'monitor 1252: the six BAR registers after the call are the six before'),
+ ('C12_monitor_1251_1252_holds_of_model', 'Proofs/PciBusMonProofs.v', 'mon1251_1252_hold_of_model',
+  'monitors 1251 / 1252 hold of bar_info of the model on ANY function and register (from C12_bar_info_no_side_effects)'),
+ ('C12_monitor_1253_meaning', 'Proofs/PciBusMonProofs.v', 'mon_decode_meaning',
+  'monitor 1253 on any line [function before; n; n accesses]: (a) every all-ones write to a BAR register was issued with both decode bits clear, (b) replaying the writes on the reference function all six BARs hold their original content after every access after which decoding is enabled, (c) only the command register and the six BAR registers are written'),
+ ('C12_monitor_1253_decodes', 'Proofs/PciBusMonProofs.v', 'mon_decode_decodes', None),
+ ('C12_bar_info_writes_only_cmd_bars', 'Proofs/PciBusMonProofs.v', 'bar_info_writes_only_cmd_bars',
+  'model: bar_info writes nothing but the command register and BAR registers (clause (c), not stated before)'),
+ ('C12_monitor_1253_holds_of_model', 'Proofs/PciBusMonProofs.v', 'mon1253_holds_of_model',
+  'monitor 1253 holds of the access trace of the model for ANY function and register'),
+ ('C12_monitor_1254_meaning', 'Proofs/PciBusMonProofs.v', 'mon_bars_truth_meaning',
+  'monitor 1254: reading the layout from slot 0 while the registers describe BARs, every BAR is reported in its own slot exactly as it is and the slot after a 64-bit BAR is reported absent'),
+ ('C12_monitor_1254_decodes', 'Proofs/PciBusMonProofs.v', 'mon_bars_truth_decodes', None),
+ ('C12_monitor_1254_holds_of_model', 'Proofs/PciBusMonProofs.v', 'mon1254_holds_of_model',
+  'monitor 1254 holds of bars() of the model on every sequence of well-formed BARs'),
+ ('C12_monitor_1205_meaning', 'Proofs/PciBusMonProofs.v', 'mon_cam_meaning',
+  'monitor 1205, valid request: served, offset = ((bus*32 + device)*8 + function) * stride + register exactly, inside the window, 4-aligned'),
+ ('C12_monitor_1205_meaning_invalid', 'Proofs/PciBusMonProofs.v', 'mon_cam_meaning_invalid', 'any other request: refused, or an aligned offset inside the window'),
+ ('C12_monitor_1205_injective', 'Proofs/PciBusMonProofs.v', 'mon_cam_injective', 'two accepted valid requests with the same offset are the same (bus, device, function, register)'),
+ ('C12_monitor_1205_holds_of_model', 'Proofs/PciBusMonProofs.v', 'mon1205_holds_of_model', 'monitor 1205 holds of cam_offset for every request, both mechanisms'),
+ ('C12_monitor_1207_meaning', 'Proofs/PciBusMonProofs.v', 'mon_cam_all_meaning', 'monitor 1207: all 256x32x8x64 tuples, all offsets distinct, none outside the window, misaligned or refused'),
+ ('C12_monitor_1255_meaning', 'Proofs/PciBusMonProofs.v', 'mon_enum_meaning',
+  'monitor 1255: every reported item is a listed function that answers, with vendor / device / class / subclass / prog-if / revision / header type from the right bit ranges, in strictly increasing (device, function) order, and there are as many items as listed functions that answer'),
+ ('C12_monitor_1255_exact', 'Proofs/PciBusMonProofs.v', 'mon_enum_exact',
+  'hence, for a population listing no (device, function) twice, every function present is reported: exactly the functions present'),
+ ('C12_monitor_1255_decodes', 'Proofs/PciBusMonProofs.v', 'mon_enum_decodes', None),
+ ('C12_monitor_1255_holds_of_model', 'Proofs/PciBusMonProofs.v', 'mon1255_holds_of_model',
+  'monitor 1255 holds of enumerate_bus of the model over the read oracle of EVERY population that lists no (device, function) twice (from C12_enumerate and a counting argument)'),
+ ('C12_monitor_1256_meaning', 'Proofs/PciBusMonProofs.v', 'mon_caps_meaning', 'monitor 1256: the iterator yielded exactly the list laid out, each capability once, in order'),
+ ('C12_monitor_1256_decodes', 'Proofs/PciBusMonProofs.v', 'mon_caps_decodes', None),
+ ('C12_monitor_1256_holds_of_model', 'Proofs/PciBusMonProofs.v', 'mon1256_holds_of_model', 'monitor 1256 holds of the capability iterator of the model on every well-formed list (from C12_caps)')]
